@@ -780,6 +780,11 @@ func acceptHeader(h wire.Header) acceptVerdict {
 // the request ID and opcode echoed, QR set, sections zeroed — without
 // touching the allocator.
 func (j *udpJob) rejectInPlace(verdict acceptVerdict) {
+	if a, ok := j.engine.handler.(sourceAdmitter); ok && !a.AdmitsSource(j.RemoteAddr()) {
+		// Outside the access list: silent, like every other query from
+		// this source.
+		return
+	}
 	var reply [wire.HeaderLen]byte
 	copy(reply[0:2], j.rx[0:2]) // ID echo
 	opcode := (j.rx[2] >> 3) & 0xF
